@@ -54,8 +54,8 @@ impl Sandbox {
         // worker: every level of the recursion under test holds one descriptor.
         unsafe {
             let mut rl: libc::rlimit = core::mem::zeroed();
-            if libc::getrlimit(libc::RLIMIT_NOFILE, &mut rl) == 0 && rl.rlim_cur > 512 {
-                rl.rlim_cur = 512;
+            if libc::getrlimit(libc::RLIMIT_NOFILE, &mut rl) == 0 && rl.rlim_cur > 1024 {
+                rl.rlim_cur = 1024;
                 libc::setrlimit(libc::RLIMIT_NOFILE, &rl);
             }
         }
@@ -99,48 +99,74 @@ pub fn path_of(b: &[u8]) -> &Path {
     Path::new(OsStr::from_bytes(b))
 }
 
-fn rel_path(c: &Comps) -> Vec<u8> {
-    if c.is_empty() {
-        b".".to_vec()
-    } else {
-        crate::check::model::join(c)
+/// Path strings handed to std stay below this; deeper directories are entered with chdir.
+const WALK_STR_MAX: usize = 3000;
+
+fn walk_dir(t: &mut Tree, comps: &Comps, prefix: &[u8]) -> Result<(), String> {
+    let esc = |b: &[u8]| vh::util::escape(&b[..b.len().min(200)]);
+    if prefix.len() > WALK_STR_MAX {
+        // (a directory below PATH_MAX bytes of path: reachable only step by step)
+        let saved = std::fs::File::open(".").map_err(|e| format!("open(.): {e}"))?;
+        std::env::set_current_dir(path_of(prefix)).map_err(|e| format!("chdir({:?}..): {e}", esc(prefix)))?;
+        let r = walk_dir(t, comps, b".");
+        use std::os::fd::AsRawFd;
+        if unsafe { libc::fchdir(saved.as_raw_fd()) } != 0 {
+            return Err("fchdir back failed".into());
+        }
+        return r;
     }
+    let mut names: Vec<Vec<u8>> = Vec::new();
+    {
+        let rd = std::fs::read_dir(path_of(prefix)).map_err(|e| format!("read_dir({:?}): {e}", esc(prefix)))?;
+        for ent in rd {
+            let ent = ent.map_err(|e| format!("read_dir entry in {:?}: {e}", esc(prefix)))?;
+            names.push(ent.file_name().as_bytes().to_vec());
+        }
+    }
+    for name in names {
+        let mut child = comps.clone();
+        child.push(name.clone());
+        let cp: Vec<u8> = if prefix == b"." {
+            name
+        } else {
+            let mut v = prefix.to_vec();
+            v.push(b'/');
+            v.extend_from_slice(&name);
+            v
+        };
+        let md = std::fs::symlink_metadata(path_of(&cp)).map_err(|e| format!("lstat({:?}): {e}", esc(&cp)))?;
+        let ft = md.file_type();
+        let node = if ft.is_dir() {
+            Node::Dir
+        } else if ft.is_file() && md.len() == 0 {
+            Node::File(Vec::new())
+        } else if ft.is_file() {
+            Node::File(std::fs::read(path_of(&cp)).map_err(|e| format!("read({:?}): {e}", esc(&cp)))?)
+        } else if ft.is_symlink() {
+            Node::Symlink(std::fs::read_link(path_of(&cp)).map_err(|e| format!("readlink({:?}): {e}", esc(&cp)))?.as_os_str().as_bytes().to_vec())
+        } else if ft.is_fifo() {
+            Node::Fifo
+        } else {
+            Node::Other
+        };
+        let is_dir = node == Node::Dir;
+        if t.nodes.insert(child.clone(), node).is_some() {
+            return Err(format!("std::fs::read_dir({:?}) listed a name twice", esc(prefix)));
+        }
+        if is_dir {
+            walk_dir(t, &child, &cp)?;
+        }
+    }
+    Ok(())
 }
 
 /// Walk the case root (the current directory) with std::fs.
 pub fn snapshot(root_abs: &[u8]) -> Result<Tree, String> {
     let mut t = Tree::new(root_abs);
-    let mut stack: Vec<Comps> = vec![Vec::new()];
-    while let Some(dir) = stack.pop() {
-        let p = rel_path(&dir);
-        let rd = std::fs::read_dir(path_of(&p)).map_err(|e| format!("read_dir({:?}): {e}", vh::util::escape(&p)))?;
-        for ent in rd {
-            let ent = ent.map_err(|e| format!("read_dir entry in {:?}: {e}", vh::util::escape(&p)))?;
-            let name = ent.file_name().as_bytes().to_vec();
-            let mut child = dir.clone();
-            child.push(name);
-            let cp = rel_path(&child);
-            let md = std::fs::symlink_metadata(path_of(&cp)).map_err(|e| format!("lstat({:?}): {e}", vh::util::escape(&cp)))?;
-            let ft = md.file_type();
-            let node = if ft.is_dir() {
-                stack.push(child.clone());
-                Node::Dir
-            } else if ft.is_file() && md.len() == 0 {
-                Node::File(Vec::new())
-            } else if ft.is_file() {
-                Node::File(std::fs::read(path_of(&cp)).map_err(|e| format!("read({:?}): {e}", vh::util::escape(&cp)))?)
-            } else if ft.is_symlink() {
-                Node::Symlink(std::fs::read_link(path_of(&cp)).map_err(|e| format!("readlink({:?}): {e}", vh::util::escape(&cp)))?.as_os_str().as_bytes().to_vec())
-            } else if ft.is_fifo() {
-                Node::Fifo
-            } else {
-                Node::Other
-            };
-            if t.nodes.insert(child, node).is_some() {
-                return Err(format!("std::fs::read_dir({:?}) listed a name twice", vh::util::escape(&p)));
-            }
-        }
-    }
+    let r = walk_dir(&mut t, &Vec::new(), b".");
+    // whatever happened, the worker lives in the case root
+    std::env::set_current_dir(path_of(root_abs)).map_err(|e| format!("chdir(root): {e}"))?;
+    r?;
     Ok(t)
 }
 
